@@ -99,15 +99,17 @@ def sign_pattern(vendor, t):
     return s
 
 
-def true_wavefunction(rng, types, natom, unrestricted):
-    """Basis (normalized contractions, >= 2 primitives per shell), atoms, complete orthonormal orbitals."""
+def true_wavefunction(rng, types, natom, unrestricted, single_ok=False):
+    """Basis (normalized contractions), atoms, complete orthonormal orbitals.  Shells have >= 2 primitives unless single_ok: with
+    one primitive a vendor's primitive normalisation is an overall factor of the shell, which the renormalisation of contractions
+    repairs as well (another admissible correction)."""
     from iodata.basis import MolecularBasis, Shell
     atnums = [rng.choice([1, 6, 8, 7]) for _ in range(natom)]
     xyz = np.array([[round(rng.uniform(-0.8, 0.8) + 2.3 * i, 6) for _ in range(3)] for i in range(natom)])
     shells = []
     centers = sorted(rng.randrange(natom) for _ in types)
     for c, t in zip(centers, types):
-        nexp = rng.choice([2, 2, 3])
+        nexp = rng.choice([2, 2, 3] if not single_ok else [1, 2, 3])
         exps = sorted((round(10 ** rng.uniform(-0.5, 0.9), 7) for _ in range(nexp)), reverse=True)
         while len(set(exps)) < nexp:
             exps = sorted((round(10 ** rng.uniform(-0.5, 0.9), 7) for _ in range(nexp)), reverse=True)
@@ -144,7 +146,8 @@ def distorted(wf, vendor, rng, corrupt=False):
     rowf = np.concatenate(rowf)
     if corrupt:
         rowf = rowf.copy()
-        rowf[rng.randrange(len(rowf))] *= 1.37     # one basis function scaled: no known correction undoes this
+        # one basis function scaled: no known correction undoes this ("slight": by so little that only a strict threshold notices)
+        rowf[rng.randrange(len(rowf))] *= 1.37 if corrupt is True else 1.0 + 7e-5
     ca = wf["ca"] * rowf[:, None]
     cb = None if wf["cb"] is None else wf["cb"] * rowf[:, None]
     return file_coeffs, ca, cb
@@ -248,7 +251,7 @@ def vendor_case(task):
           "unrestricted": unres, "norm_threshold": thr, "mo_digits": mo_digits or 0, "seed": seed, "out": "loaded", "same": True, "orthonormal": True, "warning": "none", "msg": ""}
     tmp = tempfile.mkdtemp(prefix="c05_")
     try:
-        wf = true_wavefunction(rng, types, natom, unres)
+        wf = true_wavefunction(rng, types, natom, unres, single_ok=vendor in ("standard", "unnormalized"))
         fc, ca, cb = distorted(wf, vendor, rng, corrupt)
         text = write_molden(wf, fc, ca, cb, unit, mo_digits=mo_digits) if fmt == "molden" else write_molekel(wf, fc, ca, cb)
         path = os.path.join(tmp, "v.molden" if fmt == "molden" else "v.mkl")
@@ -330,6 +333,20 @@ def plan(run, rng):
             if any(t == "hp" for t in sub):
                 continue
             tasks.append((vendor, list(sub) + ["s"], "molden", "AU", bool(i % 2), 2e-2, rng.randint(0, 10**9), False, 3))
+        # several shell types at once (a correction that repairs one type need not repair another), and a single-primitive shell
+        for _ in range(run.pick(3, 12)):
+            sub = rng.sample(allowed, min(len(allowed), rng.randint(2, 3)))
+            if any(a in sub and b in sub for a, b in (("dc", "dp"), ("fc", "fp"), ("gc", "gp"))) or "hp" in sub:
+                continue
+            tasks.append((vendor, sub, "molden", "AU", rng.random() < 0.5,
+                          rng.choice([1e-2, 2e-2]), rng.randint(0, 10**9), False, 3))
+    # a defect of 7e-5 in one basis function and the strict threshold a user asks for: every correction attempt has to honour it
+    for vendor, allowed in ALLOWED.items():
+        for _ in range(run.pick(2, 10)):
+            sub = rng.sample([t for t in allowed if t != "hp"], 2)
+            if any(a in sub and b in sub for a, b in (("dc", "dp"), ("fc", "fp"), ("gc", "gp"))):
+                sub = sub[:1]
+            tasks.append((vendor, sub, "molden", "AU", rng.random() < 0.5, 1e-6, rng.randint(0, 10**9), "slight"))
     for i in range(run.pick(6, 200)):
         vendor = rng.choice(["standard", "orca", "turbomole"])
         sub = rng.sample(ALLOWED[vendor], 2)
